@@ -229,6 +229,7 @@ let spec input obs =
       | "accget" -> Printf.sprintf "accget[auth=%s]" (Stdlib.List.hd (words input))
       | _ -> class_of e q route toks in
     (match parse_obs obs with
+     | None when after "CRASH" obs <> None -> Printf.sprintf "FAIL %s.server-died %s" cls obs   (* the child process serving the request died *)
      | None -> Printf.sprintf "FAIL %s.no-response %s" cls obs
      | Some (_, true) -> Printf.sprintf "FAIL %s.body-not-json %s" cls obs
      | Some (r, false) ->
